@@ -427,8 +427,9 @@ Fixpoint apply_loop (cf : config) (dall : bool) (attempts : nat) (fs : faults) (
   match attempts with
   | 0 => {| ao_table := t; ao_kernel := k; ao_result := Panic; ao_inputs := inputs |}
   | S a =>
-      let '(okread, saves') := if t_insync t then (true, f_saves fs) else try_saves 4 (f_saves fs) in
-      if negb okread then {| ao_table := t; ao_kernel := k; ao_result := Panic; ao_inputs := inputs |} else
+      let sv := if t_insync t then (true, f_saves fs) else try_saves 4 (f_saves fs) in
+      let saves' := snd sv in
+      if negb (fst sv) then {| ao_table := t; ao_kernel := k; ao_result := Panic; ao_inputs := inputs |} else
       let t1 := if t_insync t then t else load cf t k in
       match apply_cmds cf t1 with
       | None => apply_loop cf dall a {| f_saves := saves'; f_restores := f_restores fs |} t1 k inputs
